@@ -565,7 +565,9 @@ impl DrawState {
 
             term.write_str(line.as_ref())?;
 
-            if idx + 1 == self.lines.len() {
+            // An empty first line is padded as well: if the previous draw left the cursor at the
+            // right edge (no bar lines were drawn), it would otherwise not get a row of its own.
+            if idx + 1 == self.lines.len() || (idx == 0 && line.console_width() == 0) {
                 // For the last line of the output, keep the cursor on the right terminal
                 // side so that next user writes/prints will happen on the next line
                 let last_line_filler = line_height
